@@ -188,8 +188,8 @@ def r2_removal_siblings(run, w):
          fi=fn.fi)
   # RemoveTable: exempt by mechanism -- _update_table_model(table, None) deletes every column
   ru = w.fn("engine.Engine.rebuild_usercode")
-  ok = any(nm == "self._update_table_model" and len(c.args) == 2 and
-           isinstance(c.args[1], ast.Constant) and c.args[1].value is None
+  ok = any(nm == "self._update_table_model" and nargs(c) == 2 and
+           argn(w, ru, c, 1) is not None and is_const(argn(w, ru, c, 1), None)
            for (n, c, nm) in calls_E(ru))
   run.ob(R2, ru.qualname, "self._update_table_model(table, None) for tables that are gone",
          "a removed table has all its columns deleted and invalidated (RemoveTable's equivalent "
@@ -583,8 +583,8 @@ def r6_lookup_index(run, w):
       reg = node.value
   if reg is None or len(reg.args) != 4:
     raise AnalysisError("twowaymap: register_container(LookupSet, ...) not found")
-  for arg, meths in ((reg.args[2], ("add",)), (reg.args[3], ("discard", "remove"))):
-    fn = w.fn("twowaymap." + text(arg))
+  for reg_fn, meths in ((reg.args[2], ("add",)), (reg.args[3], ("discard", "remove"))):
+    fn = w.fn("twowaymap." + text(reg_fn))
     cont = fn.fi.params()[0]
     muts = [(n, c) for (n, c, nm) in calls_E(fn) if nm in [cont + "." + m for m in meths]]
     clr = nodes_calling_E(fn, lambda c, nm, f: nm == cont + ".sorted_versions.clear")
@@ -596,7 +596,7 @@ def r6_lookup_index(run, w):
             "lookup.ContainsLookupMapping._make_row_key_map"):
     fn = w.fn(q)
     ok = any(endswith(dotted(c.func), "TwoWayMap") and
-             any(k.arg == "left" and text(k.value) == "LookupSet" for k in c.keywords)
+             arg(c, 0, "left") is not None and text(arg(c, 0, "left")) == "LookupSet"
              for c in calls_in(fn.node))
     run.ob(R6, q, "TwoWayMap(left=LookupSet, ...)", "row sets of the index are LookupSets", ok,
            fi=fn.fi, nontrivial=False)
